@@ -88,6 +88,25 @@ def rule_a(rep: Report, idx: SourceIndex) -> None:
 	if pat is not None:
 		try:
 			ok = re.sub(pat, '', 'a[0].b[12].c') == 'a.b.c' and re.sub(pat, '', 'a.b') == 'a.b'
+			# the index is the position among the siblings and has no upper bound (a module with more than a hundred statements, a long argument list):
+			# representatives with three and seven digits, and the regex AST — every repeat over the digits is unbounded above
+			ok = ok and re.sub(pat, '', 'a[0].b[12].c[120].d[1234567].e') == 'a.b.c.d.e'
+			import re._parser as _rp
+			def _bounded(items) -> bool:
+				for op, av in items:
+					if op in (_rp.MAX_REPEAT, _rp.MIN_REPEAT):
+						lo_, hi_, sub = av
+						if hi_ != _rp.MAXREPEAT and any(o2 == _rp.IN or (o2 == _rp.CATEGORY) for o2, _ in sub):
+							return True
+						if _bounded(sub):
+							return True
+					elif op == _rp.SUBPATTERN and _bounded(av[-1]):
+						return True
+					elif op == _rp.BRANCH and any(_bounded(b) for b in av[1]):
+						return True
+				return False
+			digit_runs = [1 for op, av in _rp.parse(pat) if op in (_rp.MAX_REPEAT, _rp.MIN_REPEAT)]
+			ok = ok and not _bounded(_rp.parse(pat)) and (bool(digit_runs) or re.sub(pat, '', 'x[' + '9' * 40 + ']') == 'x')
 		except re.error:
 			ok = False
 	r.check(ok, 'reader-de-identify', di.where, f'de_identify pattern {pat!r} does not strip exactly the [index] suffixes the writer produces')
